@@ -383,7 +383,11 @@ def _receive(u: U, mod, client):
         return SAwait(name="self.pong", raises=(Boom,))
 
     mk = mk_client if client else mk_server
-    ws = mk(u, w, _closed=closed, _closing=closing, _close_code=(w.peer_code if closing else None))
+    rt = (None, 5.0)[u.choose(2, "receive_timeout_configured")]
+    ws = mk(u, w, _closed=closed, _closing=closing, _close_code=(w.peer_code if closing else None),
+            **({} if client else {"_receive_timeout": rt}))
+    if client:
+        fields(ws)["_timeout"].ws_receive = rt
     object.__getattribute__(ws, "_o_methods")["close"] = close_stub
     object.__getattribute__(ws, "_o_methods")["pong"] = pong_stub
     cls = "ClientWebSocketResponse" if client else "WebSocketResponse"
@@ -398,6 +402,7 @@ def _receive(u: U, mod, client):
     def hook(y):
         if y.awaited.name == "reader.read":
             waiting_seen["during_read"] = fields(ws)["_waiting"]
+            waiting_seen["depth_at_read"] = w.depth
             # a close() from another task arrives while we are blocked: it creates _close_wait (and feeds CLOSING)
             if has_closer:
                 fields(ws)["_close_wait"] = _Fut(name="close_wait")
@@ -424,6 +429,11 @@ def _receive(u: U, mod, client):
                 "on a closed session receive() yields the CLOSED message without waiting")
         return
     if waiting_seen["during_read"] is not None:
+        u.check(f"C13.{which}.receive.read_is_time_bounded_when_configured",
+                (waiting_seen["depth_at_read"] == 1 and w.timeout_args == [rt]) if rt is not None
+                else waiting_seen["depth_at_read"] == 0,
+                "with a receive timeout configured the wait for the next message runs under exactly that deadline "
+                "(receive() never blocks longer than asked); without one no timer is created")
         u.check(f"C13.{which}.receive.waiting_during_read", waiting_seen["during_read"] is True,
                 "R2: _waiting is True while blocked in the read, so whoever ends the session knows to wake it")
         if has_closer:
